@@ -12,7 +12,7 @@
 (* One state per tree; the enumerated space is written to OUT_FILE and harness/fn_predrename.py builds  *)
 (* the documents in the real engine.  A node = one operator / call / list display / leaf.               *)
 EXTENDS PredicateRename, TLC, Json, IOUtils, SequencesExt, FiniteSetsExt
-CONSTANTS MaxWide, MaxNarrow, Lanes
+CONSTANTS MaxWide, MaxNarrow, Lanes, Full
 
 C(v) == <<"Const", v>>
 N(s) == <<"Name", s>>
@@ -127,7 +127,7 @@ Toks(t) ==
 \* ---- the reference "implementation" ---------------------------------------------------------------------
 EntryOf(c, k) == [kind |-> c.kind, self |-> c.self, choice |-> c.choice, res |-> c.res, col |-> "R", txt |-> 1]
 CaseOf(e, v, steps) ==
-  [texts |-> <<[expr |-> e, style |-> "model", text |-> "t", toks |-> Toks(e), hascmt |-> FALSE, comment |-> <<>>]>>,
+  [texts |-> <<[expr |-> e, style |-> "model", text |-> "t", toks |-> <<>>, hascmt |-> FALSE, comment |-> <<>>]>>,
    doc |-> [attrs |-> v.attrs, res |-> v.res, entries |-> [k \in 1..Len(Contexts) |-> EntryOf(Contexts[k], k)]],
    steps |-> steps, path |-> "RenameColumn"]
 
@@ -135,13 +135,15 @@ SideOf(t, changed) ==
   [present |-> TRUE, text |-> IF changed THEN "t'" ELSE "t", cps |-> Concat(Toks(t), 1), tree |-> t, pexc |-> "",
    has |-> TRUE, stored |-> t, raw |-> IF changed THEN "r'" ELSE "r", rest |-> "rest"]
 Ref(inp) ==
-  LET e == inp.texts[1].expr IN
+  LET e == inp.texts[1].expr
+      before == SideOf(e, FALSE)
+  IN
   [exc |-> "", renamed |-> TRUE,
    entries |-> [k \in 1..Len(inp.doc.entries) |->
                   LET ctx == CtxOf(inp, inp.doc.entries[k])
                       \* a default rule naming a renamed column: any outcome is admitted; the reference leaves it
                       r == IF Ambiguous(e, ctx, inp.steps) THEN e ELSE Renamed(e, ctx, inp.steps)
-                  IN [b |-> SideOf(e, FALSE), a |-> SideOf(r, r # e)]],
+                  IN [b |-> before, a |-> IF r = e THEN before ELSE SideOf(r, TRUE)]],
    attrs |-> [k \in 1..Len(inp.doc.attrs) |->
                 LET b == [ok |-> TRUE, name |-> inp.doc.attrs[k].name, charId |-> inp.doc.attrs[k].charId,
                           tableId |-> inp.doc.attrs[k].tableId, lookupColId |-> inp.doc.attrs[k].lookupColId,
@@ -155,25 +157,28 @@ Ref(inp) ==
 \* ---- sanity of the specification on every enumerated input -------------------------------------------------
 Unrelated == <<Step("T", "Q", "W")>>
 TreeSane(e, v, targets) ==
+  LET toks == Toks(e) IN
   \A g \in targets :
     LET steps == Targets[g]
-        inp == CaseOf(e, v, steps)
+        inp == [CaseOf(e, v, steps) EXCEPT !.texts[1].toks = toks]
     IN /\ Ok17(inp, Ref(inp))
        /\ \A k \in 1..Len(Contexts) :
             LET ctx == CtxRec(v, Contexts[k])
                 r == Renamed(e, ctx, steps)
             IN /\ WF(r)
                \* rendering commutes with renaming: the token-level and the tree-level notions agree
-               /\ ExpectedCps(Toks(e), ctx, steps) = Concat(Toks(r), 1)
-               /\ CountsAgree(e, Toks(e), ctx, steps, 1)
+               /\ ExpectedCps(toks, ctx, steps) = Concat(Toks(r), 1)
+               /\ CountsAgree(e, toks, ctx, steps, 1)
                \* after a single rename nothing refers to the old column any more
                /\ Len(steps) = 1 => Hits(r, ctx, steps[1]) = 0
                \* a column nobody mentions changes nothing
                /\ Renamed(e, ctx, Unrelated) = e
 
-\* The combinations that are executed in the real engine (checks/C17.py pairs them the same way): a tree
-\* of the wide family with every rename, the k-th tree (from 0) of the narrow family with renames k and k+3
-\* (mod the number of renames); the document variant is k mod 3 in both families.
+\* The combinations that are executed in the real engine (checks/C17.py pairs them the same way).
+\* Full (quick tier, small families): a tree of the wide family with every rename, the k-th tree (from 0) of
+\* the narrow family with renames k and k+3 (mod the number of renames).  Otherwise: a wide tree with four
+\* renames (T.X, U.X, two columns at once or a chain, an unrelated column), a narrow tree with rename k.
+\* The document variant is k mod 3 in both families.
 VARIABLE i
 Init == i \in 1..(IF NE < Lanes THEN NE ELSE Lanes)
 Next == i + Lanes <= NE /\ i' = i + Lanes
@@ -183,5 +188,6 @@ SpecSane ==
       nt == Len(Targets)
   IN /\ WF(ExprSeq[i])
      /\ TreeSane(ExprSeq[i], Variants[(k % Len(Variants)) + 1],
-                 IF wide THEN 1..nt ELSE {(k % nt) + 1, ((k + 3) % nt) + 1})
+                 IF wide THEN (IF Full THEN 1..nt ELSE {(k % 2) + 1, 3, 6 + (k % 2), 4 + (k % 2)})
+                 ELSE (IF Full THEN {(k % nt) + 1, ((k + 3) % nt) + 1} ELSE {(k % nt) + 1}))
 =============================================================================
